@@ -90,7 +90,6 @@ type interpreter struct {
 	runtimeErrorString types.Type             // the runtime.errorString type
 	sizes              types.Sizes            // the effective type-sizing function
 	goroutines         int32                  // atomically updated
-	initAllow          map[string]bool
 	steps              int64
 }
 
@@ -150,8 +149,12 @@ func (fr *frame) runDefer(d *deferred) {
 	defer func() {
 		if !ok {
 			// Deferred call created a new state of panic.
+			p := classifyPanic(recover())
+			if isControl(p) {
+				panic(p)
+			}
 			fr.panicking = true
-			fr.panic = recover()
+			fr.panic = p
 		}
 	}()
 	call(fr.i, fr, d.instr.Pos(), d.fn, d.args)
@@ -380,10 +383,8 @@ func visitInstr(fr *frame, instr ssa.Instruction) continuation {
 		key := fr.get(instr.Key)
 		v := fr.get(instr.Value)
 		switch m := m.(type) {
-		case map[value]value:
-			m[key] = v
-		case *hashmap:
-			m.insert(key.(hashable), v)
+		case *omap:
+			m.insert(key, v)
 		default:
 			panic(fmt.Sprintf("illegal map type: %T", m))
 		}
@@ -530,24 +531,23 @@ func callSSA(i *interpreter, caller *frame, callpos token.Pos, fn *ssa.Function,
 	if fn.Synthetic == "package initializer" && initDeny(fn.Pkg.Pkg.Path()) {
 		return nil
 	}
-	i.steps++
-	if os.Getenv("SYMTRACE") != "" {
+	if symTrace {
 		fmt.Fprintf(os.Stderr, "CALL %s\n", fn)
 	}
-	if i.steps > 2000000 {
-		panic("step limit")
-	}
 	if fn.Parent() == nil {
-		name := fn.String()
-		if ext := intrinsic(name); ext != nil {
-			return ext(fr, args)
-		}
-		if ext := externals[name]; ext != nil {
-			if i.mode&EnableTracing != 0 {
-				fmt.Fprintln(os.Stderr, "\t(external)")
+		info := fnInfo(fn)
+		if info.ext != nil {
+			if info.stub && !ex.seenStubs[info.name] {
+				ex.seenStubs[info.name] = true
+				ex.newStubs = append(ex.newStubs, info.name)
 			}
-			return ext(fr, args)
+			return info.ext(fr, args)
 		}
+		if info.target && !ex.seenFuncs[info.name] {
+			ex.seenFuncs[info.name] = true
+			ex.newFuncs = append(ex.newFuncs, info.name)
+		}
+		name := info.name
 		if fn.Blocks == nil && fn.Pkg != nil {
 			fn.Pkg.Build()
 		}
@@ -607,8 +607,12 @@ func runFrame(fr *frame) {
 		if fr.i.mode&DisableRecover != 0 {
 			return // let interpreter crash
 		}
+		p := classifyPanic(recover())
+		if isControl(p) {
+			panic(p)
+		}
 		fr.panicking = true
-		fr.panic = recover()
+		fr.panic = p
 		if fr.i.mode&EnableTracing != 0 {
 			fmt.Fprintf(os.Stderr, "Panicking: %T %v.\n", fr.panic, fr.panic)
 		}
@@ -635,6 +639,10 @@ func runFrame(fr *frame) {
 					return
 				}
 				continue
+			}
+			fr.i.steps++
+			if fr.i.steps > ex.maxSteps {
+				panic(abortPath{"instruction budget exceeded (termination check)"})
 			}
 			if visitInstr(fr, instr) == kReturn {
 				return
@@ -811,7 +819,7 @@ func tolerantVisit(fr *frame, instr ssa.Instruction) (k continuation) {
 	defer func() {
 		if p := recover(); p != nil {
 			switch p.(type) {
-			case abortPath, assertFail:
+			case abortPath, prunePath, stopPath:
 				panic(p)
 			}
 			initSkipped[fr.fn.Pkg.Pkg.Path()]++
@@ -823,3 +831,75 @@ func tolerantVisit(fr *frame, instr ssa.Instruction) (k continuation) {
 	}()
 	return visitInstr(fr, instr)
 }
+
+var symTrace = os.Getenv("SYMTRACE") != ""
+
+type fnInfoT struct {
+	name   string
+	ext    externalFn
+	stub   bool
+	target bool
+}
+
+var fnInfoCache = map[*ssa.Function]*fnInfoT{}
+
+func fnInfo(fn *ssa.Function) *fnInfoT {
+	if r, ok := fnInfoCache[fn]; ok {
+		return r
+	}
+	name := fn.String()
+	r := &fnInfoT{name: name}
+	if h := overrides[name]; h != nil {
+		r.ext = func(fr *frame, args []value) value { return callSSA(fr.i, fr.caller, token.NoPos, h, args, nil) }
+		r.stub = true
+		r.name = name + " => " + h.Name()
+	} else if ext := intrinsic(name); ext != nil {
+		r.ext = ext
+	} else if ext := externals[name]; ext != nil {
+		r.ext = ext
+		r.stub = true
+	}
+	if fn.Pkg != nil && strings.HasPrefix(fn.Pkg.Pkg.Path(), "github.com/wneessen/go-mail") {
+		b := fn.Name()
+		if !strings.HasPrefix(b, "sv") && !strings.HasPrefix(b, "Harness") && !strings.HasPrefix(b, "hx") && fn.Synthetic == "" {
+			if f := fn.Prog.Fset.File(fn.Pos()); f == nil || !strings.Contains(f.Name(), "zz_verif") {
+				r.target = true
+			}
+		}
+	}
+	fnInfoCache[fn] = r
+	return r
+}
+
+// classifyPanic separates panics that the target program could observe
+// (explicit panic(), Go run-time errors that the interpreter reproduces
+// natively) from failures of the engine itself, which make the path
+// inconclusive and must never be seen by a recover() in the target.
+func classifyPanic(p interface{}) interface{} {
+	switch x := p.(type) {
+	case nil, targetPanic, abortPath, prunePath, stopPath, exitPanic:
+		return p
+	case *runtime.TypeAssertionError:
+		buf := make([]byte, 1<<13)
+		return abortPath{"engine: " + x.Error() + "\n" + string(buf[:runtime.Stack(buf, false)])}
+	case runtime.Error:
+		return p
+	case string:
+		for _, pre := range []string{"interface conversion:", "method invoked on nil interface", "call of nil function", "runtime error:", "negative shift amount", "array length is greater than slice length"} {
+			if strings.HasPrefix(x, pre) {
+				return p
+			}
+		}
+		buf := make([]byte, 1<<13)
+		return abortPath{"engine: " + x + "\n" + string(buf[:runtime.Stack(buf, false)])}
+	default:
+		return abortPath{fmt.Sprintf("engine: unexpected panic %T %v", p, p)}
+	}
+}
+
+// overrides maps an SSA function name to a harness function of the same
+// signature (receiver first) that is interpreted in its place: the
+// environment models live next to the harness, as ordinary Go.
+var overrides = map[string]*ssa.Function{}
+
+func RegisterOverride(target string, h *ssa.Function) { overrides[target] = h }
